@@ -29,17 +29,16 @@ H = {
     'seek_position': ('k_scan.rs.tmpl', 'scan', ('quick', 'thorough'), 'R11: position(|t| t.inp > b).unwrap_or(len)', 'window'),
     'getkey_take_while_last': ('k_scan.rs.tmpl', 'scan', ('quick', 'thorough'), 'R11: take_while(out <= value).last()', 'window'),
     'registry_find': ('k_scan.rs.tmpl', 'scan', ('quick', 'thorough'), 'R11: first hit of the cache row (position over the find closure)', 'window'),
-    'index_table_loop': ('k_scan.rs.tmpl', 'scan', ('quick', 'thorough'), 'R11: the enumerate loop that fills the 256-entry transition index', 'window'),
 }
 for j in range(15):
     H['table16_succ_%02d' % j] = ('k_tables.rs', 'crate', ('quick', 'thorough'), 'TABLE16[%d+1][i] is one zero-byte step of TABLE16[%d][i]' % (j, j), 'complete (256 concrete entries)')
 
 # which hoisted helper comes from which Verus unit
-HOIST_UNITS = {'hoist_find_input': 'decode', 'vx_hoist_seek_position': 'stream', 'vx_hoist_getkey': 'getkey', 'hoist_find': 'registry', 'hoist_index': 'encode'}
+HOIST_UNITS = {'hoist_find_input': 'decode', 'vx_hoist_seek_position': 'stream', 'vx_hoist_getkey': 'getkey', 'hoist_find': 'registry'}
 SCAN_HOISTS = {'find_input_scan': 'hoist_find_input', 'seek_position': 'vx_hoist_seek_position', 'getkey_take_while_last': 'vx_hoist_getkey',
-               'registry_find': 'hoist_find', 'index_table_loop': 'hoist_index'}
-WINDOW = {'quick': {'find_input_scan': 34, 'seek_position': 34, 'getkey_take_while_last': 8, 'registry_find': 4, 'index_table_loop': 6},
-          'thorough': {'find_input_scan': 256, 'seek_position': 256, 'getkey_take_while_last': 40, 'registry_find': 16, 'index_table_loop': 40}}
+               'registry_find': 'hoist_find'}
+WINDOW = {'quick': {'find_input_scan': 34, 'seek_position': 34, 'getkey_take_while_last': 8, 'registry_find': 4},
+          'thorough': {'find_input_scan': 256, 'seek_position': 256, 'getkey_take_while_last': 40, 'registry_find': 16}}
 
 
 def sh(cmd, cwd, timeout):
